@@ -143,3 +143,21 @@ def guard_ok(iface_args, type_args, report):
     for name, arg in type_args.items():
         if name not in iface_args and arg.required:
             report(name)
+
+
+def itermut_bad(tasks, nulled):
+    for task in tasks:
+        if nulled(task.path):
+            tasks.remove(task)
+    return tasks
+
+
+def itermut_ok(tasks, nulled):
+    for task in list(tasks):
+        if nulled(task.path):
+            tasks.remove(task)
+    for task in tasks:
+        if task.done:
+            tasks.remove(task)
+            break
+    return tasks
